@@ -45,7 +45,7 @@ int __wrap_pthread_attr_destroy(pthread_attr_t *a) {
 typedef struct { void *addr; int refs; volatile int finished; int freed; int by_unref; int live; } HEnt;
 static HEnt hreg[MAXH]; static pthread_mutex_t hmu = PTHREAD_MUTEX_INITIALIZER;
 static __thread int in_unref;
-static long long st_threads, st_freed_by_unref, st_freed_at_exit, st_joined, st_detached, st_refs, st_tls_threads, st_first_use_races, st_foreign;
+static long long st_threads, st_freed_by_unref, st_freed_at_exit, st_joined, st_detached, st_refs, st_tls_threads, st_seq_threads, st_seq_ops, st_seq_values, st_seq_replace_on_empty, st_seq_replace_with_null, st_first_use_races, st_foreign;
 static long long bad_free_refs, bad_free_running;
 
 static HEnt *h_register(void *addr, int refs) {
@@ -262,6 +262,75 @@ static void *foreign_fn(void *a) {
 	if (e) e->finished = 1;
 	return e;
 }
+/* ---- random TLS histories against a per-thread slot model -------------------------------------------------
+ * K keys (every second one without a notifier), T threads (library threads, joinable or detached, and the main thread),
+ * each runs L random operations set/replace/get with fresh values or NULL.  Model per (thread,key): current value.
+ * Expected notifier runs per value: 1 if it was the slot's content when p_uthread_replace_local was called or when the
+ * thread exited, else 0 (overwritten by set_local: never).  The notifier must never be handed NULL. */
+#define SQ_KEYS 4
+#define SQ_LEN 48
+typedef struct { int destroyed; int expect; int key; } SqVal;
+typedef struct { uint64_t seed; SqVal v[SQ_LEN * SQ_KEYS + 4]; int nv; void *left[SQ_KEYS]; int done; char trace[SQ_LEN * 8 + 8]; int wrong_get, bad_now; char bad_what[120]; } SqThread;
+static PUThreadKey *sq_key[SQ_KEYS]; static long long sq_null_calls, sq_foreign_calls; static long long st_seq_threads, st_seq_ops, st_seq_replace_on_empty, st_seq_replace_with_null, st_seq_values;
+static void sq_destroy(ppointer p) { SqVal *v = p; if (!p) { __atomic_add_fetch(&sq_null_calls, 1, __ATOMIC_SEQ_CST); return; } __atomic_add_fetch(&v->destroyed, 1, __ATOMIC_SEQ_CST); }
+static void sq_run(SqThread *q) {
+	vh_rng r; int i, o = 0; void *cur[SQ_KEYS] = { 0 };
+	vh_seed(&r, q->seed);
+	for (i = 0; i < SQ_LEN; i++) {
+		int k = (int)vh_below(&r, SQ_KEYS), op = (int)vh_below(&r, 10), has_notifier = !(k & 1); SqVal *nv = NULL, *old = cur[k];
+		if (vh_below(&r, 4) != 0) { nv = &q->v[q->nv++]; nv->key = k; }
+		if (p_uthread_get_local(sq_key[k]) != cur[k]) q->wrong_get++;
+		if (op < 4) {          /* set: the old value is simply forgotten */
+			p_uthread_set_local(sq_key[k], nv); o += snprintf(q->trace + o, sizeof q->trace - (size_t)o, "s%d%c ", k, nv ? 'v' : '0');
+			if (old && __atomic_load_n(&old->destroyed, __ATOMIC_SEQ_CST) != old->expect && !q->bad_now) { q->bad_now = 1; snprintf(q->bad_what, sizeof q->bad_what, "set_local ran the notifier on the overwritten value"); }
+		} else if (op < 9) {   /* replace: the old value is destroyed once, now, if the key has a notifier */
+			if (old && has_notifier) old->expect = 1;
+			if (!old) __atomic_add_fetch(&st_seq_replace_on_empty, 1, __ATOMIC_RELAXED);
+			if (!nv && old) __atomic_add_fetch(&st_seq_replace_with_null, 1, __ATOMIC_RELAXED);
+			p_uthread_replace_local(sq_key[k], nv); o += snprintf(q->trace + o, sizeof q->trace - (size_t)o, "r%d%c ", k, nv ? 'v' : '0');
+			if (old && __atomic_load_n(&old->destroyed, __ATOMIC_SEQ_CST) != old->expect && !q->bad_now) { q->bad_now = 1; snprintf(q->bad_what, sizeof q->bad_what, "after replace_local(%s) on a %s the old value was destroyed %d times, expected %d", nv ? "value" : "NULL", has_notifier ? "key with notifier" : "key without notifier", old->destroyed, old->expect); }
+		} else { if (p_uthread_get_local(sq_key[k]) != cur[k]) q->wrong_get++; continue; }
+		cur[k] = nv;
+		if (p_uthread_get_local(sq_key[k]) != cur[k]) q->wrong_get++;
+	}
+	for (i = 0; i < SQ_KEYS; i++) { q->left[i] = cur[i]; if (cur[i] && !(i & 1)) ((SqVal *)cur[i])->expect = 1; }      /* left at thread exit */
+	__atomic_add_fetch(&st_seq_ops, SQ_LEN, __ATOMIC_RELAXED);
+}
+static ppointer sq_body(ppointer a) { SqThread *q = a; sq_run(q); __atomic_store_n(&q->done, 1, __ATOMIC_SEQ_CST); return NULL; }
+static void *sq_foreign_body(void *a) { sq_body(a); return NULL; }
+static void sq_check(SqThread *q, const char *kind) {
+	int i;
+	if (q->wrong_get) viol("tls-wrong-value", "random TLS history (%s thread): p_uthread_get_local differed from the thread's own last set/replace %d times [%s]", kind, q->wrong_get, q->trace);
+	if (q->bad_now) viol("tls-history-notifier", "random TLS history (%s thread): %s [%s]", kind, q->bad_what, q->trace);
+	for (i = 0; i < q->nv; i++) if (q->v[i].key >= 0 && __atomic_load_n(&q->v[i].destroyed, __ATOMIC_SEQ_CST) != q->v[i].expect) {
+		viol("tls-history-notifier", "random TLS history (%s thread): value #%d of key %d (%s notifier) was destroyed %d times after the thread ended, expected %d [%s]", kind, i, q->v[i].key, (q->v[i].key & 1) ? "no" : "with", q->v[i].destroyed, q->v[i].expect, q->trace); break; }
+	st_seq_values += q->nv;
+}
+static void run_tls_sequences(vh_rng *r, int rounds, int maxt) {
+	int round, i;
+	scen = "tls-history";
+	for (i = 0; i < SQ_KEYS; i++) sq_key[i] = p_uthread_local_new((i & 1) ? NULL : sq_destroy);
+	for (round = 0; round < rounds && vh_nviol < vh_max_viol; round++) {
+		int T = 1 + (int)vh_below(r, (uint64_t)maxt); SqThread *q = calloc((size_t)T, sizeof *q); PUThread **th = calloc((size_t)T, sizeof *th); pthread_t *pt = calloc((size_t)T, sizeof *pt); int *kind = calloc((size_t)T, sizeof *kind);
+		for (i = 0; i < T; i++) { int j; q[i].seed = vh_next(r); for (j = 0; j < SQ_LEN * SQ_KEYS + 4; j++) q[i].v[j].key = -1; kind[i] = (int)vh_below(r, 8); }
+		for (i = 0; i < T; i++) {
+			if (kind[i] == 0) { if (pthread_create(&pt[i], NULL, sq_foreign_body, &q[i])) kind[i] = -1; }                   /* thread not created by the library */
+			else { th[i] = p_uthread_create(sq_body, &q[i], kind[i] != 1, NULL); if (!th[i]) kind[i] = -1; }                 /* kind 1: detached */
+		}
+		for (i = 0; i < T; i++) {
+			if (kind[i] == 0) pthread_join(pt[i], NULL);
+			else if (kind[i] == 1) { int w; for (w = 0; w < 100000 && !__atomic_load_n(&q[i].done, __ATOMIC_SEQ_CST); w++) usleep(100); p_uthread_unref(th[i]); }
+			else if (kind[i] > 1) { p_uthread_join(th[i]); p_uthread_unref(th[i]); }
+		}
+		/* destructors of a detached thread run after its function returned: wait for the values it left behind */
+		for (i = 0; i < T; i++) if (kind[i] == 1) { int k2, w; for (k2 = 0; k2 < SQ_KEYS; k2 += 2) { SqVal *lv = q[i].left[k2]; for (w = 0; lv && w < 50000 && !__atomic_load_n(&lv->destroyed, __ATOMIC_SEQ_CST); w++) usleep(100); } }
+		for (i = 0; i < T; i++) if (kind[i] >= 0) { sq_check(&q[i], kind[i] == 0 ? "foreign" : kind[i] == 1 ? "detached" : "joinable"); st_seq_threads++; }
+		free(q); free(th); free(pt); free(kind);
+	}
+	if (sq_null_calls) viol("tls-notifier-null", "the destroy notifier was called with NULL %lld times (it must run only for non-NULL values)", sq_null_calls);
+	for (i = 0; i < SQ_KEYS; i++) p_uthread_local_free(sq_key[i]);
+}
+
 static void run_foreign(int n) {
 	int i;
 	for (i = 0; i < n && vh_nviol < vh_max_viol; i++) {
@@ -292,11 +361,12 @@ int main(int argc, char **argv) {
 	run_concurrent_unref((int)vh_argi(argc, argv, "--unref-races", 300));
 	run_first_use(&r, races, alive < 4 ? 4 : alive);
 	run_foreign(foreign);
+	run_tls_sequences(&r, (int)vh_argi(argc, argv, "--tls-histories", 200), alive < 8 ? alive : 8);
 	inj_on = 0;
 	p_uthread_local_free(key_a); p_uthread_local_free(key_b);
 	p_libsys_shutdown();
 	printf("{\"ev\":\"stats\",\"threads\":%lld,\"joined\":%lld,\"detached\":%lld,\"explicit_refs\":%lld,\"handles_freed_by_harness_unref\":%lld,\"handles_freed_at_thread_exit\":%lld,\"tls_threads\":%lld,"
-	       "\"first_use_races\":%lld,\"concurrent_unref_races\":%lld,\"foreign_threads\":%lld,\"delayed_thread_starts\":%lld,\"delayed_creators\":%lld,\"viol\":%d,\"wall\":%.2f}\n",
-	       st_threads, st_joined, st_detached, st_refs, st_freed_by_unref, st_freed_at_exit, st_tls_threads, st_first_use_races, st_concurrent_unrefs, st_foreign, inj_start_delays, inj_creator_delays, vh_nviol, vh_now() - t0);
+	       "\"tls_history_threads\":%lld,\"tls_history_ops\":%lld,\"tls_history_values\":%lld,\"tls_replace_on_empty_slot\":%lld,\"tls_replace_with_null\":%lld,\"first_use_races\":%lld,\"concurrent_unref_races\":%lld,\"foreign_threads\":%lld,\"delayed_thread_starts\":%lld,\"delayed_creators\":%lld,\"viol\":%d,\"wall\":%.2f}\n",
+	       st_threads, st_joined, st_detached, st_refs, st_freed_by_unref, st_freed_at_exit, st_tls_threads, st_seq_threads, st_seq_ops, st_seq_values, st_seq_replace_on_empty, st_seq_replace_with_null, st_first_use_races, st_concurrent_unrefs, st_foreign, inj_start_delays, inj_creator_delays, vh_nviol, vh_now() - t0);
 	return 0;
 }
